@@ -219,7 +219,18 @@ def gen_input_spec(family, p, rng, dtype=None, small=False):
     layout = "contig" if rng.random() < 0.6 else _pick(rng, LAYOUTS)
     if rng.random() < 0.04:
         layout = "unbatched"      # wrong rank today; judged like any other input if accepted
-    return {"shape": shape, "dtype": dtype, "layout": layout,
+    r = rng.random()
+    if r < 0.02:
+        shape[-1] = _pick(rng, [66, 96, 130])      # beyond any plausible small-size threshold
+    elif r < 0.03:
+        shape[0] = 0                               # empty batch
+    elif r < 0.04:
+        shape[1] = 3 if (family in ("scat", "scat2") and p.get("combine_colour")) else 5
+    fill = None
+    r = rng.random()
+    if r < 0.09:
+        fill = ["zeros", "ones", "ints", "ints", "naninf"][int(r * 100) % 5]
+    return {"shape": shape, "dtype": dtype, "layout": layout, "fill": fill,
             "seed": rng.randrange(1 << 30),
             # 1e-39 / 1e-309: values in the denormal range of the dtype
             "scale": _pick(rng, [1.0, 1.0, 1.0, 1e-3, 50.0, 1.0, 1e-3, 50.0, 1.0,
